@@ -2,6 +2,9 @@ package props
 
 import (
 	"fmt"
+	"os"
+	"os/exec"
+	"regexp"
 	"strings"
 
 	jd "github.com/josephburnett/jd/v2"
@@ -212,7 +215,7 @@ func init() {
 			"(2) valid jd / JSON Patch / JSON Merge Patch / JSON / YAML texts damaged at line and byte level, then read, applied and rendered in every format; (3) hostile YAML (.inf, .nan, non-string keys, anchors, merge keys, multi-document, huge integers); " +
 			"(4) the same material through both binaries (-p, -t, -yaml). non-trivial = the reader accepted the text (so Patch/Render ran) ; distinct = distinct texts",
 		Floors: map[string]int{"patch_calls": 500000, "patch_error_returned": 100000, "patch_result_returned": 20000, "read_accepted": 20000, "read_rejected": 10000,
-			"cli_runs": 1000, "cli_status_2": 300, "yaml_read_ok": 10},
+			"cli_runs": 1000, "patch_sequences_read": 5000, "cli_status_2": 300, "yaml_read_ok": 10},
 		Assumptions: []string{
 			"a hang is reported as inconclusive by the driver's watchdog, never as a violation by elapsed time",
 			"'one-line message' is decided as: exit status 2, non-empty stderr, and no Go crash markers (panic:, fatal error:, goroutine N [running])",
@@ -276,6 +279,48 @@ func init() {
 					return
 				}
 			}
+		},
+	})
+	// all sequences of 1-3 ops over a small op alphabet (index paths, key paths, '-', root)
+	patchOps := []string{
+		`{"op":"test","path":"/0","value":1}`, `{"op":"test","path":"/1","value":2}`, `{"op":"test","path":"/2","value":3}`, `{"op":"test","path":"/a","value":1}`, `{"op":"test","path":"","value":1}`,
+		`{"op":"remove","path":"/0","value":1}`, `{"op":"remove","path":"/1","value":2}`, `{"op":"remove","path":"/a"}`, `{"op":"remove","path":""}`,
+		`{"op":"add","path":"/0","value":9}`, `{"op":"add","path":"/1","value":9}`, `{"op":"add","path":"/-","value":9}`, `{"op":"add","path":"/a","value":9}`, `{"op":"add","path":"","value":9}`,
+		`{"op":"test","path":"/a/0","value":1}`, `{"op":"add","path":"/a/1","value":9}`, `{"op":"replace","path":"/0","value":9}`, `{"op":"test","path":"/-","value":1}`, `{"op":"test","path":"/01","value":1}`,
+	}
+	nOps := len(patchOps)
+	p.Strata = append(p.Strata, mon.Stratum{
+		Name:       "json-patch-op-sequences",
+		N:          n(nOps + nOps*nOps + nOps*nOps*nOps),
+		Exhaustive: always,
+		Run: func(c *mon.Ctx, i int) {
+			var ops []string
+			switch {
+			case i < nOps:
+				ops = []string{patchOps[i]}
+			case i < nOps+nOps*nOps:
+				j := i - nOps
+				ops = []string{patchOps[j/nOps], patchOps[j%nOps]}
+			default:
+				j := i - nOps - nOps*nOps
+				ops = []string{patchOps[j/(nOps*nOps)], patchOps[(j/nOps)%nOps], patchOps[j%nOps]}
+			}
+			text := "[" + strings.Join(ops, ",") + "]"
+			c.Input("json_patch", text)
+			var d jd.Diff
+			var err error
+			if pan := mon.Safe(func() { d, err = jd.ReadPatchString(text) }); pan != "" {
+				c.Violation("ReadPatchString panicked", map[string]any{"panic": pan})
+				return
+			}
+			c.Feature("patch_sequences_read")
+			if err != nil {
+				c.Feature("read_rejected")
+				return
+			}
+			c.Feature("read_accepted")
+			c.Nontrivial(text)
+			exerciseDiff(c, "JSON Patch", d, []string{`[1,2,3]`, `{"a":[1,2]}`, `1`, `[1]`, `{"a":1}`, `[]`})
 		},
 	})
 	p.Strata = append(p.Strata, mon.Stratum{
@@ -460,5 +505,65 @@ func init() {
 			}
 		},
 	})
+	// coverage-guided leg (thorough only): Go native fuzzing of harness/fuzz with a fixed execution count
+	fuzzTargets := []string{"FuzzDiffText", "FuzzPatchText", "FuzzMergeText", "FuzzYamlDoc", "FuzzJsonPair"}
+	p.Strata = append(p.Strata, mon.Stratum{
+		Name: "coverage-guided-fuzz",
+		CLI:  true,
+		N: func(t mon.Tier) int {
+			if t == mon.Thorough {
+				return len(fuzzTargets)
+			}
+			return 0
+		},
+		Run: func(c *mon.Ctx, i int) {
+			target := fuzzTargets[i]
+			execs := "2000000"
+			if v := os.Getenv("VH_FUZZ_EXECS"); v != "" {
+				execs = v
+			}
+			c.Input("fuzz_target", target)
+			c.Input("executions", execs)
+			cmd := exec.Command("go", "test", "-tags", "verif", "-run=^$", "-fuzz=^"+target+"$", "-fuzztime="+execs+"x", "-parallel=3", "./fuzz")
+			cmd.Dir = "/verif/harness"
+			cmd.Env = append(os.Environ(), "GOMAXPROCS=4")
+			out, err := cmd.CombinedOutput()
+			text := string(out)
+			c.Feature("fuzz_targets_run")
+			if m := regexp.MustCompile(`execs: (\d+)`).FindAllStringSubmatch(text, -1); len(m) > 0 {
+				var nx int
+				fmt.Sscan(m[len(m)-1][1], &nx)
+				c.FeatureN("fuzz_executions", nx)
+			}
+			c.Nontrivial("fuzz:" + target)
+			if err == nil {
+				return
+			}
+			extra := map[string]any{"go_test_output": tail(text, 3000)}
+			if m := regexp.MustCompile(`testdata/fuzz/(\S+)`).FindStringSubmatch(text); m != nil {
+				src := "/verif/harness/fuzz/testdata/fuzz/" + m[1]
+				if b, rerr := os.ReadFile(src); rerr == nil {
+					extra["failing_input"] = string(b)
+					dst := "/verif/evidence/replays/C13-fuzz-" + strings.ReplaceAll(m[1], "/", "-") + ".txt"
+					os.MkdirAll("/verif/evidence/replays", 0o755)
+					os.WriteFile(dst, b, 0o644)
+					extra["failing_input_file"] = dst
+				}
+				os.RemoveAll("/verif/harness/fuzz/testdata")
+			}
+			if strings.Contains(text, "panic") || strings.Contains(text, "FAIL") {
+				c.Violation("coverage-guided fuzzing of "+target+" found an input that crashes jd", extra)
+				return
+			}
+			c.Violation("go test -fuzz failed for "+target+" (build or tool failure)", extra)
+		},
+	})
 	mon.Register(p)
+}
+
+func tail(s string, n int) string {
+	if len(s) > n {
+		return s[len(s)-n:]
+	}
+	return s
 }
